@@ -100,6 +100,7 @@ def icmpRecv (s : IcmpSt) (pkt : Bytes) : Out :=
         | some info =>
           if info.qdst ≠ s.cfg.target then .retry
           else if info.qsrc ≠ s.cfg.localA then .retry
+          else if info.proto ≠ 1 then .retry        -- the quoted packet is not ICMP (fix for F11)
           else
             match parseEcho4 info.payload with
             | none => .retry
@@ -122,6 +123,7 @@ def icmpRecv (s : IcmpSt) (pkt : Bytes) : Out :=
         | some info =>
           if info.qdst ≠ s.cfg.target then .retry
           else if info.qsrc ≠ s.cfg.localA then .retry
+          else if info.proto ≠ 58 then .retry       -- the quoted packet is not ICMPv6 (fix for F11)
           else
             match extractEcho6 info.payload with
             | none => .retry
@@ -189,6 +191,7 @@ def udpRecv (s : UdpSt) (pkt : Bytes) : Out :=
     | none => .retry
     | some none => .retry
     | some (some info) =>
+      if info.proto ≠ 17 then .retry else           -- the quoted packet is not UDP (fix for F11)
       match quotedPorts info.payload with
       | none => .retry
       | some (sp, dp) =>
@@ -253,6 +256,7 @@ def tcpRecv (s : TcpSt) (pkt : Bytes) : Out :=
       else match icmpInfo4 i with
         | none => .retry
         | some info =>
+          if info.proto ≠ 6 then .retry else        -- the quoted packet is not TCP (fix for F11)
           match quotedPorts info.payload, quotedSeq info.payload with
           | some (sp, dp), some sq =>
             if ¬ (info.qdst = s.cfg.target ∧ dp = s.cfg.tport) then .retry
@@ -332,6 +336,7 @@ def sackRecv (s : SackSt) (pkt : Bytes) : Out :=
       else match icmpInfo4 i with
         | none => .retry
         | some info =>
+          if info.proto ≠ 6 then .retry else        -- the quoted packet is not TCP (fix for F11)
           match quotedPorts info.payload, quotedSeq info.payload with
           | some (sp, dp), some sq =>
             if ¬ (info.qdst = s.cfg.target ∧ dp = s.cfg.tport) then .retry
